@@ -5,12 +5,8 @@ go 1.23
 require (
 	github.com/fluhus/biostuff v0.0.0
 	github.com/fluhus/gostuff v1.0.1
+	github.com/klauspost/compress v1.17.9
 	github.com/spaolacci/murmur3 v1.1.0
-)
-
-require (
-	github.com/klauspost/compress v1.17.9 // indirect
-	golang.org/x/exp v0.0.0-20240604190554-fc45aab8b7f8 // indirect
 )
 
 replace github.com/fluhus/biostuff => /repo
